@@ -179,3 +179,28 @@ MUTANTS += [
     dict(name="c05_score_krr_unrelative", prop="C05", file=KPC,
          old="        Lkrr = np.linalg.norm(Y - y) ** 2 / np.linalg.norm(Y) ** 2", new="        Lkrr = np.linalg.norm(Y - y) ** 2 / np.linalg.norm(y) ** 2"),
 ]
+
+RDG = "src/skmatter/linear_model/_ridge.py"
+MUTANTS += [
+    # ---------------------------------------------------------------- C10
+    dict(name="revert_fix_ridge_len", prop="C10", file=RDG,
+         old="        n = sum(s > rcond * np.max(s))", new="        n = len(s > rcond * np.max(s))"),
+    dict(name="revert_fix_ridge_abs_rcond", prop="C10", file=RDG,
+         old="        n_fold1 = sum(s_fold1 > rcond * np.max(s_fold1))\n        n_fold2 = sum(s_fold2 > rcond * np.max(s_fold2))", new="        n_fold1 = sum(s_fold1 > rcond)\n        n_fold2 = sum(s_fold2 > rcond)"),
+    dict(name="revert_fix_ridge_scorer_swap", prop="C10", file=RDG,
+         old="                @ Ut_fold1_y_fold1,\n                y_fold2,\n            )", new="                @ Ut_fold1_y_fold1,\n                y_fold2,\n            ) if False else scorer(identity_estimator, y_fold2, (X_fold2_V_fold1 * (s_fold1[:n_fold1] / (s_fold1[:n_fold1] ** 2 + alpha))) @ Ut_fold1_y_fold1)"),
+    dict(name="c10_fold_orientation", prop="C10", file=RDG,
+         old="        fold1_idx, fold2_idx = next(cv.split(X))", new="        fold2_idx, fold1_idx = next(cv.split(X))"),
+    dict(name="c10_relative_min", prop="C10", file=RDG,
+         old="            scaled_alphas *= max(np.max(s_fold1), np.max(s_fold2))", new="            scaled_alphas *= min(np.max(s_fold1), np.max(s_fold2))"),
+    dict(name="c10_tikhonov_formula", prop="C10", file=RDG,
+         old="                    X_fold1_V_fold2\n                    * (s_fold2[:n_fold2] / (s_fold2[:n_fold2] ** 2 + alpha))", new="                    X_fold1_V_fold2\n                    * (1.0 / (s_fold2[:n_fold2] + alpha))"),
+    dict(name="c10_argmin_alpha", prop="C10", file=RDG,
+         old="        best_alpha_idx = np.argmax(self.cv_values_)", new="        best_alpha_idx = np.argmin(self.cv_values_)"),
+    dict(name="c10_final_fit_unscaled_alpha", prop="C10", file=RDG,
+         old="        best_scaled_alpha = scaled_alphas[best_alpha_idx]", new="        best_scaled_alpha = self.alphas[best_alpha_idx]"),
+    dict(name="c10_cutoff_ge", prop="C10", file=RDG,
+         old="            n_alpha = min(n, sum(s > best_scaled_alpha))", new="            n_alpha = min(n, sum(s > best_scaled_alpha) + (1 if sum(s > best_scaled_alpha) < n and best_scaled_alpha > 0 else 0))"),
+    dict(name="c10_only_first_target_scored", prop="C10", file=RDG,
+         old="            return (loss_1_to_2 + loss_2_to_1) / 2\n\n        if self.regularization_method", new="            return (loss_1_to_2 + loss_2_to_1) / 2 if y.shape[1] < 3 else loss_1_to_2\n\n        if self.regularization_method"),
+]
